@@ -4,7 +4,7 @@ import vlib
 from props.common import TRUSTED_BASE, ASSUMPTIONS
 
 ID = "C11"
-LEAN_MODULES = ["LexVerif.Props.C11"]
+LEAN_MODULES = ["LexVerif.Props.C11", "LexVerif.Props.C11Int"]
 GEN = []
 TRUSTED = TRUSTED_BASE + [
     "the two relations are checked on the IMPLEMENTATION's results (second stage: the complete parser is re-run on the prefix "
